@@ -71,6 +71,20 @@ static void *t3(void *a) {
     return NULL;
 }
 
+/* same function on two threads: both allocations come from one call site, so at STACKS level they share one stack record;
+ * each thread dumps while the other may be half-way through registering its allocation (added after a seeded change that
+ * let go of the tracer's lock between creating the shared stack record and filling it in) */
+static void *t4(void *a) {
+    int me = (int)(intptr_t)a;
+    uint8_t *p = aws_mem_acquire(T, 8);
+    fill(p, 8, 0x44);
+    aws_mem_tracer_dump(T);
+    observe(me, 8, 1, "after dump");
+    VS_CHECK(okfill(p, 8, 0x44), "contents", "block contents disturbed by another thread");
+    aws_mem_release(T, p);
+    return NULL;
+}
+static int shared_site;
 static void run_n(int n, enum aws_mem_trace_level level) {
     galloc_reset();
     struct aws_allocator *parent = galloc_get(2, 1);
@@ -79,6 +93,7 @@ static void run_n(int n, enum aws_mem_trace_level level) {
     T = aws_mem_tracer_new(parent, NULL, level, 2);
     pthread_t th[4];
     void *(*fn[4])(void *) = {t1, t2, t3, t2};
+    if (shared_site) fn[0] = fn[1] = fn[2] = t4;
     for (int i = 0; i < n; ++i) pthread_create(&th[i], NULL, fn[i], (void *)(intptr_t)i);
     for (int i = 0; i < n; ++i) pthread_join(th[i], NULL);
     VS_CHECK(aws_mem_tracer_bytes(T) == 0, "bytes-at-quiescence", "everything released but the tracer reports %zu bytes outstanding", aws_mem_tracer_bytes(T));
@@ -91,6 +106,11 @@ static void m2(void) { run_n(2, AWS_MEMTRACE_BYTES); }
 static void m3(void) { run_n(3, AWS_MEMTRACE_BYTES); }
 static void m2s(void) { run_n(2, AWS_MEMTRACE_STACKS); }
 static void m4(void) { run_n(4, AWS_MEMTRACE_BYTES); }
+static void m2d(void) {
+    shared_site = 1;
+    run_n(2, AWS_MEMTRACE_STACKS);
+    shared_site = 0;
+}
 
 int main(int argc, char **argv) {
     v_init(argc, argv);
@@ -98,6 +118,7 @@ int main(int argc, char **argv) {
     struct vsx_scenario sc[] = {
         {.name = "TR2-bytes-two-threads", .run = m2, .bound_quick = 3, .bound_thorough = 4},
         {.name = "TR2-stacks-two-threads", .run = m2s, .bound_quick = 2, .bound_thorough = 3},
+        {.name = "TR2-stacks-shared-site-dump", .run = m2d, .bound_quick = 2, .bound_thorough = 3},
         {.name = "TR3-bytes-three-threads", .run = m3, .bound_quick = 2, .bound_thorough = 3},
         {.name = "TR4-bytes-four-threads", .run = m4, .bound_quick = -1, .bound_thorough = 2},
     };
